@@ -481,4 +481,183 @@ Proof.
     rewrite (K1 c1 r1) by (left; reflexivity). cbn. discriminate.
 Qed.
 
+
+(* each request moves forward only: no step lowers its rank, and a pipeline step raises the rank of a request that
+   was read and not answered. A request therefore takes at most four pipeline steps, and with finitely many
+   requests sent, [read_requests_progress] and weak fairness of the pipeline give: every request read is answered. *)
+Definition rank (x : rstate) : nat :=
+  match x with Fresh => 0 | InFlight => 1 | Pending => 2 | Queued => 3 | InHand => 4 | Spawned => 4
+             | Running => 5 | Answered => 6 | Lost => 6 end.
+
+Lemma step_rank_mono : forall s l s', reachable s -> stepW s l = Some s' ->
+  forall c r, rank (rs s c r) <= rank (rs s' c r).
+Proof.
+  intros s l s' Hr H c0 r0. destruct (reachable_Safe s Hr) as [J1 J2 J2' J3 J4 J5 J6 J7].
+  open_step H; split_guards; upd_cases; auto;
+    try (match goal with Hx : rs _ ?c ?r = _ |- context[rs _ ?c ?r] => rewrite Hx; cbn; lia end).
+  - rewrite (J6 c r) by (apply existsb_req_in; assumption). cbn. lia.
+  - subst. rewrite (J7 c r) by reflexivity. cbn. lia.
+  - rewrite Heqb. destruct (cstate_eqb (cst s c) CClosed); cbn; lia.
+Qed.
+
+Lemma pipeline_step_advances : forall s l s', reachable s -> stepW s l = Some s' -> pipeline_label l ->
+  exists c r, unanswered (rs s c r) = true /\ rank (rs s c r) < rank (rs s' c r).
+Proof.
+  intros s l s' Hr H Hp. destruct (reachable_Safe s Hr) as [J1 J2 J2' J3 J4 J5 J6 J7].
+  open_step H; split_guards; try contradiction; exists c, r; rewrite upd2_eq.
+  all: try (match goal with Hx : rs _ ?c ?r = _ |- context[rs _ ?c ?r] => rewrite Hx; cbn; split; [reflexivity | lia] end).
+  - rewrite (J6 c r) by (apply existsb_req_in; assumption). cbn. split; [reflexivity | lia].
+  - subst. rewrite (J7 c r) by reflexivity. cbn. split; [reflexivity | lia].
+  - rewrite Heqb. destruct (cstate_eqb (cst s c) CClosed); cbn; split; auto; lia.
+Qed.
+
+(* C12, clause "Shutdown returns once all connections have drained": the drained return happens only when every
+   connection ever accepted is closed, and then nothing that was read is unanswered *)
+Theorem drained_return_sound : forall s s', reachable s -> stepW s LPollReturn = Some s' ->
+  ph s' = SRetDrained /\ (forall c, In c (known s') -> cst s' c = CClosed) /\
+  (forall c r, unanswered (rs s' c r) = false).
+Proof.
+  intros s s' Hr H. pose proof (reachable_Safe s Hr) as HS. destruct HS as [J1 J2 J2' J3 J4 J5 J6 J7].
+  remember LPollReturn as l eqn:Hl.
+  open_step H; try discriminate Hl; split_guards.
+  assert (Hall : forall c, In c (known s) -> cst s c = CClosed).
+  { intros c Hc. unfold all_closed in H0. rewrite forallb_forall in H0. specialize (H0 c Hc).
+    apply orb_true_iff in H0. destruct H0 as [H0 | H0].
+    - apply negb_true_iff in H0. destruct (J2 c H0) as [Hx | Hx]; auto. apply J1 in Hc. contradiction.
+    - apply cstate_eqb_eq in H0. exact H0. }
+  split; [reflexivity|]. split; [exact Hall|].
+  intros c r. destruct (unanswered (rs s c r)) eqn:E; auto.
+  destruct (unanswered_conn_live s (reachable_Safe s Hr) c r E) as [Hc [Hk _]].
+  rewrite (Hall c Hk) in Hc. destruct Hc; discriminate.
+Qed.
+
+(* ... and it is available as soon as they are: with every connection closed, the poller's next tick returns *)
+Theorem drained_return_enabled : forall s, is_down (ph s) = true -> all_closed s = true ->
+  exists s', runW s (if inpoll s then [LPollReturn] else [LPollBegin; LPollReturn]) = Some s' /\ ph s' = SRetDrained.
+Proof.
+  intros s Hd Ha. assert (Hal : alive (ph s) = true) by (destruct (ph s); cbn in *; congruence).
+  destruct (inpoll s) eqn:Hi.
+  - cbn [run]. unfold step. rewrite Hal, Hd, Hi, Ha. cbn. eexists. split; reflexivity.
+  - cbn [run]. unfold step at 1. rewrite Hal, Hd, Hi. cbn [negb andb].
+    unfold step. cbn [ph listen inpoll known cst inmap notified polled busy pend rs queue hand running stopped earlypoll].
+    rewrite Hal, Hd. cbn [negb andb].
+    unfold all_closed in *. cbn [ph listen inpoll known cst inmap notified polled busy pend rs queue hand running stopped earlypoll].
+    rewrite Ha. eexists. split; reflexivity.
+Qed.
+
+(* the context ends Shutdown from any point of the drain *)
+Theorem ctx_expiry_enabled : forall s, is_down (ph s) = true ->
+  exists s', stepW s LCtxExpire = Some s' /\ ph s' = SRetCtx.
+Proof.
+  intros s Hd. assert (Hal : alive (ph s) = true) by (destruct (ph s); cbn in *; congruence).
+  unfold step. rewrite Hal, Hd. cbn. eexists. split; reflexivity.
+Qed.
+
+
+(* ---------------------------------------------------------------------------------------------------------- *)
+(* Close notification. *)
+
+Record Notif (s : state) : Prop := {
+  N_listen : listen s = 0 \/ listen s = 1 \/ listen s = 2;
+  N_closed : earlypoll s = false -> forall c, cst s c = CClosed -> notified s c = true;
+  N_two : listen s = 2 -> forall c, inmap s c = true -> cst s c <> CClosed -> notified s c = true;
+  N_inpoll : inpoll s = true -> earlypoll s = false -> listen s = 2;
+  N_polled : forall c, polled s c = true -> earlypoll s = false -> listen s = 2
+}.
+
+Lemma init_Notif : Notif init.
+Proof. constructor; cbn; intros; try discriminate; auto. Qed.
+
+Lemma step_N_listen : forall s l s', Notif s -> stepW s l = Some s' -> listen s' = 0 \/ listen s' = 1 \/ listen s' = 2.
+Proof.
+  intros s l s' [M0 M1 M2 M3 M4] H.
+  open_step H; split_guards; auto.
+  destruct (listen s =? 1); auto.
+Qed.
+
+Lemma step_N_two : forall s l s', Safe s -> Notif s -> stepW s l = Some s' ->
+  listen s' = 2 -> forall c, inmap s' c = true -> cst s' c <> CClosed -> notified s' c = true.
+Proof.
+  intros s l s' [J1 J2 J2' J3 J4 J5 J6 J7] [M0 M1 M2 M3 M4] H Hl c0 Hm Hc.
+  open_step H; split_guards; upd_cases; try (apply M2; assumption); try congruence; try discriminate.
+  - destruct (listen s =? 1) eqn:E.
+    + rewrite Hm. destruct (cstate_eqb (cst s c0) CClosed) eqn:E2.
+      * apply cstate_eqb_eq in E2. contradiction.
+      * cbn. apply orb_true_r.
+    + apply M2; auto.
+  - apply M2; auto; try congruence. destruct (inmap s c) eqn:E; auto. destruct (J2 c E); congruence.
+Qed.
+
+Lemma step_N_inpoll : forall s l s', Notif s -> stepW s l = Some s' ->
+  inpoll s' = true -> earlypoll s' = false -> listen s' = 2.
+Proof.
+  intros s l s' [M0 M1 M2 M3 M4] H Hi He.
+  open_step H; split_guards; try (apply M3; assumption); try discriminate.
+  - specialize (M3 Hi He). congruence.
+  - apply orb_false_iff in He. destruct He as [He1 He2]. apply Nat.eqb_neq in He2.
+    destruct (listen s =? 1) eqn:E; auto. apply Nat.eqb_neq in E. destruct M0 as [M0 | [M0 | M0]]; congruence.
+Qed.
+
+Lemma step_N_polled : forall s l s', Notif s -> stepW s l = Some s' ->
+  forall c, polled s' c = true -> earlypoll s' = false -> listen s' = 2.
+Proof.
+  intros s l s' [M0 M1 M2 M3 M4] H c0 Hi He.
+  open_step H; split_guards; upd_cases; try (eapply M4; eassumption); try discriminate.
+  - specialize (M4 _ Hi He). congruence.
+  - apply orb_false_iff in He. destruct He as [He1 He2]. apply Nat.eqb_neq in He2.
+    destruct (listen s =? 1) eqn:E; auto. apply Nat.eqb_neq in E. destruct M0 as [M0 | [M0 | M0]]; congruence.
+Qed.
+
+Lemma step_N_closed : forall s l s', Safe s -> Notif s -> stepW s l = Some s' ->
+  earlypoll s' = false -> forall c, cst s' c = CClosed -> notified s' c = true.
+Proof.
+  intros s l s' [J1 J2 J2' J3 J4 J5 J6 J7] [M0 M1 M2 M3 M4] H He c0 Hc.
+  open_step H; split_guards; upd_cases; try (apply M1; assumption); try congruence; try discriminate.
+  - apply orb_false_iff in He. destruct He as [He1 He2].
+    destruct (listen s =? 1); [rewrite (M1 He1 c0 Hc); reflexivity | apply M1; assumption].
+  - apply M2; auto; congruence.
+  - apply M2; auto; congruence.
+  - apply M2; try congruence.
+    + eapply M4; eauto.
+    + destruct (inmap s c) eqn:E; auto. destruct (J2 c E); congruence.
+Qed.
+
+Lemma step_Notif : forall s l s', Safe s -> Notif s -> stepW s l = Some s' -> Notif s'.
+Proof.
+  intros s l s' HS HN H. constructor.
+  - eapply step_N_listen; eauto.
+  - eapply step_N_closed; eauto.
+  - eapply step_N_two; eauto.
+  - eapply step_N_inpoll; eauto.
+  - eapply step_N_polled; eauto.
+Qed.
+
+Lemma reachable_Notif : forall s, reachable s -> Notif s.
+Proof.
+  apply reachable_ind'. apply init_Notif. intros. eapply step_Notif; eauto. apply reachable_Safe; auto.
+Qed.
+
+(* C12, clause "connected clients are sent the reconnect notification": provided no poller tick began while the
+   listener was still up, a connection is closed by the server only after the close message was written to it *)
+Theorem closed_after_notification : forall s, reachable s -> earlypoll s = false ->
+  forall c, cst s c = CClosed -> notified s c = true.
+Proof. intros s Hr. apply (N_closed s (reachable_Notif s Hr)). Qed.
+
+(* at the closing step itself the message had already been written *)
+Theorem close_step_notified : forall s l s' c, reachable s -> stepW s l = Some s' ->
+  cst s c <> CClosed -> cst s' c = CClosed -> earlypoll s' = false -> notified s c = true.
+Proof.
+  intros s l s' c Hr H Hn Hc He.
+  assert (Hs' : notified s' c = true).
+  { apply closed_after_notification; auto. eapply reachable_step; eauto. }
+  open_step H; split_guards; upd_cases; try contradiction; try discriminate; auto.
+Qed.
+
+(* once the listener is down and a tick has passed (isListenClosed = 2), every connection still in the table has
+   the message *)
+Theorem all_open_notified : forall s, reachable s -> listen s = 2 ->
+  forall c, inmap s c = true -> cst s c <> CClosed -> notified s c = true.
+Proof. intros s Hr. apply (N_two s (reachable_Notif s Hr)). Qed.
+
+
 End Proofs.
